@@ -176,6 +176,7 @@ def harness(cfg, ns):
             obls.append(Obl("value==sum(w*cat)/sum(w)-where-defined", SymBool(z3.Implies(lift(den) > 0, lift(got) * lift(den) == lift(num))), rz))
         if cfg.get("same"):
             obls.append(Obl("same-category-and-nothing-unaligned: categorical disorder is 0", core.eq(got, 0), rz))
+            A = al.Alignment(uas, disorder=al.Alignment(uas).compute_disorder(D))     # as compute_gamma hands it over: with its disorder
             res = co.GammaResults(best_alignment=A, chance_alignments=[], dissimilarity=D)
             saved = co.ThreadPoolExecutor
             co.ThreadPoolExecutor = stubs.DeferredExecutor.make()
@@ -203,8 +204,10 @@ def harness(cfg, ns):
             return vals[key]
         al.Alignment.gamma_k_disorder = spy
         try:
-            best = al.Alignment([], None, disorder=1)
-            chance = [al.Alignment([], None, disorder=1) for _ in range(3)]
+            # overall (positional + categorical) disorders: any values >= 0 - the categorical measures must not depend on them
+            overall = [ctx.fresh("overall", lo=0) for _ in range(4)]
+            best = al.Alignment([], None, disorder=overall[0])
+            chance = [al.Alignment([], None, disorder=overall[1 + i]) for i in range(3)]
 
             class D:
                 pass
@@ -219,7 +222,7 @@ def harness(cfg, ns):
             co.ThreadPoolExecutor = saved
             al.Alignment.gamma_k_disorder = saved_gk
         if meth == "sequence":
-            rzs = lambda m: dict(kind="ratio", meth="sequence", vals={f"{i}|{c}": common.frs(mval(m, v)) for (i, c), v in   # noqa: E731
+            rzs = lambda m: dict(kind="ratio", meth="sequence", overall=[common.frs(mval(m, x)) for x in overall], vals={f"{i}|{c}": common.frs(mval(m, v)) for (i, c), v in   # noqa: E731
                                                                       [((([best] + chance).index(next(a for a in [best] + chance if id(a) == k[0])), k[1]), v) for k, v in vals.items()]})
             o = []
             for cat_, g in seq:
@@ -227,7 +230,10 @@ def harness(cfg, ns):
                 mean = (vals[(id(chance[0]), cat_)] + vals[(id(chance[1]), cat_)] + vals[(id(chance[2]), cat_)]) / 3
                 o.append(Obl(f"each measure of the sequence uses its own category's disorders[{cat_}]", core.eq(g, 1 - ob / mean), rzs))
             return o
-        rz = lambda m: dict(kind="ratio", meth=meth, vals=[common.frs(mval(m, vals[id(x)])) if id(x) in vals else None for x in [best] + chance])   # noqa: E731
+        rz = lambda m: dict(kind="ratio", meth=meth, vals=[common.frs(mval(m, vals[id(x)])) if id(x) in vals else None for x in [best] + chance],   # noqa: E731
+                            overall=[common.frs(mval(m, x)) for x in overall])
+        if id(best) not in vals:
+            return [Obl("categorical-disorder-of-the-best-alignment-is-computed", False, rz)]
         obs = vals[id(best)]
         ch = [vals.get(id(x)) for x in chance]
         obls = [Obl("category-forwarded", set(cats_seen) == ({None} if meth == "gamma_cat" else {"x"}), rz)]
@@ -257,6 +263,24 @@ def harness(cfg, ns):
                 except TypeError:
                     ok = True
                 obls.append(Obl(f"refused-with-TypeError[{type(d).__name__}]", ok, rz))
+        # the measures of a result object refuse as well, whatever overall disorder its alignments carry (0 included)
+        ov = ctx.fresh("overall", lo=0)
+        rz2 = lambda m: dict(kind="refuse", overall=common.frs(mval(m, ov)))   # noqa: E731
+        saved = co.ThreadPoolExecutor
+        co.ThreadPoolExecutor = stubs.DeferredExecutor.make()
+        try:
+            for d in others[:2]:
+                Ab = al.Alignment(list(A.unitary_alignments), None, disorder=ov)
+                res = co.GammaResults(best_alignment=Ab, chance_alignments=[al.Alignment(list(A.unitary_alignments), None, disorder=1)], dissimilarity=d)
+                for nm, call in (("gamma_cat", lambda: res.gamma_cat), ("gamma_k", lambda: res.gamma_k("a"))):
+                    try:
+                        call()
+                        ok = False
+                    except TypeError:
+                        ok = True
+                    obls.append(Obl(f"result.{nm}-refused-with-TypeError[{type(d).__name__}]", ok, rz2))
+        finally:
+            co.ThreadPoolExecutor = saved
         ok = True
         try:
             A.gamma_k_disorder(ds.CombinedCategoricalDissimilarity(), None)
@@ -296,13 +320,25 @@ def replay(case):
                     bad.append(f"{type(d).__name__} accepted")
                 except TypeError:
                     pass
-            return dict(reproduced=bool(bad), detail="; ".join(bad))
+            import pygamma_agreement.continuum as co
+            ov = F(case.get("overall", "1"))
+            for d in (pa.PositionalSporadicDissimilarity(), pa.AbsoluteCategoricalDissimilarity()):
+                res = co.GammaResults(best_alignment=Alignment(list(A.unitary_alignments), None, disorder=ov),
+                                      chance_alignments=[Alignment(list(A.unitary_alignments), None, disorder=1.0)], dissimilarity=d)
+                for nm, call in (("gamma_cat", lambda: res.gamma_cat), ("gamma_k", lambda: res.gamma_k("a"))):
+                    try:
+                        v = call()
+                        bad.append(f"result.{nm} with {type(d).__name__} (overall disorder {ov}) returned {v} instead of refusing")
+                    except TypeError:
+                        pass
+            return dict(reproduced=bool(bad), detail="; ".join(bad[:3]))
         from unittest import mock
         import pygamma_agreement.continuum as co
+        OV = [F(x) for x in case.get("overall", ["1", "1", "1", "1"])]
         if case["meth"] == "sequence":
             V = {(int(k.split("|")[0]), None if k.split("|")[1] == "None" else k.split("|")[1]): F(v) for k, v in case["vals"].items()}
-            best = Alignment([], None, disorder=1)
-            chance = [Alignment([], None, disorder=1) for _ in range(3)]
+            best = Alignment([], None, disorder=OV[0])
+            chance = [Alignment([], None, disorder=OV[1 + i]) for i in range(3)]
             objs = [best] + chance
             with mock.patch.object(Alignment, "gamma_k_disorder", lambda self, d, c: V[(objs.index(self), c)]):
                 res = co.GammaResults(best_alignment=best, chance_alignments=chance, dissimilarity=None)
@@ -314,8 +350,8 @@ def replay(case):
                     bad.append(f"measure for category {c_!r} in the sequence = {g}, expected {want}")
             return dict(reproduced=bool(bad), detail="; ".join(bad[:2]))
         vals = [F(v) if v is not None else 1.0 for v in case["vals"]]
-        best = Alignment([], None, disorder=1)
-        chance = [Alignment([], None, disorder=1) for _ in range(3)]
+        best = Alignment([], None, disorder=OV[0])
+        chance = [Alignment([], None, disorder=OV[1 + i]) for i in range(3)]
         table = {id(best): vals[0], **{id(c): v for c, v in zip(chance, vals[1:])}}
         with mock.patch.object(Alignment, "gamma_k_disorder", lambda self, d, c: table[id(self)]):
             res = co.GammaResults(best_alignment=best, chance_alignments=chance, dissimilarity=None)
